@@ -265,7 +265,8 @@ class CuckooDriver:
             if not done:
                 return self.step(["add", op[1]])
             new = ctx.call(self.noexc, self.K.frombytes, bytes(raw), None, self.hf)
-            new.fingerprint_size = self.case["fs"]
+            if self.case["fs"] != 4:  # (4 bytes is what a loaded filter has anyway: nothing to re-supply)
+                new.fingerprint_size = self.case["fs"]
             new.expansion_rate = self.case["rate"]
             new.auto_expand = self.case["auto"]
             self.obj = new
@@ -385,7 +386,8 @@ class CuckooDriver:
             ctx.call(self.noexc, o.export, p)
             self.verify("after exporting to a file (the exported object itself)")
             new = ctx.call(self.noexc, self.K, filepath=p, hash_function=self.hf)
-        new.fingerprint_size = self.case["fs"]
+        if self.case["fs"] != 4:  # (4 bytes is what a loaded filter has anyway: nothing to re-supply)
+            new.fingerprint_size = self.case["fs"]
         new.expansion_rate = self.case["rate"]
         new.auto_expand = self.case["auto"]
         self.obj = new
